@@ -113,7 +113,7 @@ CLAIMS["C08"] = dict(
          "symbol-table functions, compile_block over statement lists of arbitrary length, the zero-size directives, main_cli (the internal-error path is reached only "
          "through an internal exception of parse/compile). Totality over 'all source texts' is NOT decided: the parser is outside the verifier's subset. A run-time "
          "check feeds 300 (3000 thorough) grammar-directed random programs with planted faults through the real parser+assembler under a watchdog (testing).",
-    note="Trusted: pyvc incl. its models of builtin exceptions, z3. Known findings proved absent outside their regions: D7 ('(%x)+' with x defined later: TypeError), "
+    note="Trusted: pyvc incl. its models of builtin exceptions, z3. Known findings proved absent outside their regions: "
          "D15 (x = x + 1: never terminates), D16 (x = x / 2: DeferredCycle escapes), D8 (image >= 64 KiB to bin), D12 (shared C07 units). Recursion depth/memory/time "
          "are not modelled. The parser's own totality is not claimed.",
 )
